@@ -36,3 +36,12 @@ Proof.
   rewrite (divmod_refines_map n1 ops H1 Hok), (divmod_refines_map n2 ops H2 Hok).
   apply arun_capacity_irrelevant; assumption.
 Qed.
+
+(* Pointer compression (trie::ArrayBhiksha) is lossless: for every non-decreasing sequence of next-pointers and
+   every number of inline bits, what WriteNext stored is what ReadNext returns, so results cannot depend on the
+   pointer-compression bit limit. *)
+From Kenlm Require Import C03.BhikshaModel C03.BhikshaProofs.
+Theorem C03_bhiksha_roundtrip : forall b vs index, 0 <= b -> sorted vs -> nonneg vs -> 0 <= index ->
+  (Z.to_nat index + 1 < length vs)%nat ->
+  read_next b (bhiksha_write b vs) index = (nth (Z.to_nat index) vs 0, nth (Z.to_nat (index + 1)) vs 0).
+Proof. intros b vs index Hb. exact (read_after_write b Hb vs index). Qed.
